@@ -193,8 +193,16 @@ def cross_check(interp, contract, shape, seed, n_samples=40, max_len=10):
     skipped = 0          # inputs the harness could not evaluate (a fault when frequent); inputs outside the precondition are not counted
     outside = 0
     # draw more than n_samples candidates: inputs outside the contract's precondition are discarded, and the quota is of *evaluated* inputs
-    for vals in gen_inputs(interp, shape, rng, n_samples * 6, max_len=max_len):
-        if evals >= n_samples or outside + skipped >= n_samples * 5:
+    custom = getattr(shape, 'gen', None) is not None
+    # (the default generator decides itself how many candidates a shape deserves -- e.g. the complete boundary sweep for a single
+    #  integer value -- so only custom generators get a quota of evaluated inputs)
+    def candidates():
+        yield from gen_inputs(interp, shape, rng, n_samples * (6 if custom else 1), max_len=max_len)
+        if not custom and evals < max(3, n_samples // 3) and outside > 0:
+            # most candidates fell outside the contract's precondition: draw a larger second batch
+            yield from gen_inputs(interp, shape, rng, n_samples * 5, max_len=max_len)
+    for vals in candidates():
+        if (custom and evals >= n_samples) or outside + skipped >= n_samples * 8:
             break
         info = replay.replay(interp, contract, shape, vals)
         if info.get('reproduced') is None:
